@@ -248,7 +248,10 @@ func (wb *memWriteBatch) Put(key []byte, value []byte) {
 			if wb.cachedForMerge == nil {
 				wb.cachedForMerge = make(map[string][]byte, 4)
 			}
-			wb.cachedForMerge[string(key)] = value
+			// the caller may reuse the value buffer after the put, keep a copy
+			cv := make([]byte, len(value))
+			copy(cv, value)
+			wb.cachedForMerge[string(key)] = cv
 		}
 		return
 	}
